@@ -605,8 +605,19 @@ class SymTuple:
             return default
         n = z3.Length(self.s)
         e = lift(b)
-        e = z3.If(e < 0, e + n, e)
-        return z3.If(e < 0, z3.IntVal(0), z3.If(e > n, n, e))
+        it = cur()
+
+        def pick(c, a_, b_):
+            # context-aware: resolve the Python slice normalisation when the path condition decides it
+            if it is not None and it.ctx_simplify:
+                if it.entails(c):
+                    return a_
+                if it.entails(z3.Not(c)):
+                    return b_
+            return z3.If(c, a_, b_)
+
+        e = z3.simplify(pick(e < 0, e + n, e))
+        return pick(e < 0, z3.IntVal(0), pick(e > n, n, e))
 
     def __getitem__(self, i):
         n = z3.Length(self.s)
@@ -616,7 +627,11 @@ class SymTuple:
 
                 raise Untranslatable("extended slice of a symbolic tuple")
             lo_, hi_ = self._bound(i.start, z3.IntVal(0)), self._bound(i.stop, n)
-            return SymTuple(z3.SubSeq(self.s, lo_, z3.If(hi_ > lo_, hi_ - lo_, z3.IntVal(0))))
+            ln = hi_ - lo_
+            it = cur()
+            if not (it is not None and it.ctx_simplify and it.entails(hi_ >= lo_)):
+                ln = z3.If(hi_ > lo_, hi_ - lo_, z3.IntVal(0))
+            return SymTuple(z3.SubSeq(self.s, lo_, z3.simplify(ln)))
         e = lift(i)
         it = cur()
         ok = z3.And(e >= -n, e < n)
